@@ -357,14 +357,16 @@ func runGroup(c *vf.Check, g *groups.G) {
 	// set to Base() or Null() - overwriting it with the identity, a small value, a sum - later Base()/Null() calls and
 	// the multiples of the implicit generator are what they were
 	if g.Base {
+		// reference encodings taken once, before the case (a re-run of the case must judge against the same values:
+		// a change that corrupts the group's constants would otherwise be its own reference the second time)
+		b0 := fmod.Enc(g.Point().Base())
+		o0 := fmod.Enc(g.Point().Null())
+		five := m.Sc(big.NewInt(5))
+		var m5 []byte
+		if g.MulNil {
+			m5 = fmod.Enc(g.Point().Mul(five, nil))
+		}
 		c.Case(g.Name+": Base()/Null() results overwritten in place", pk+"/generator-stable", func(x *vf.Ctx) {
-			b0 := fmod.Enc(g.Point().Base())
-			o0 := fmod.Enc(g.Point().Null())
-			five := m.Sc(big.NewInt(5))
-			var m5 []byte
-			if g.MulNil {
-				m5 = fmod.Enc(g.Point().Mul(five, nil))
-			}
 			one := g.Point().Base()
 			for step, f := range []func(p kyber.Point){
 				func(p kyber.Point) { p.Null() },
